@@ -72,6 +72,24 @@ def payload(i):
     return ("ok", i * 10 + 1)
 
 
+class Unpicklable:
+    """a task result that cannot cross a process boundary (it holds a function object, as a result carrying an open
+    connection, a lock or a local class would)"""
+
+    def __init__(self, i):
+        self.i = i
+        self.handle = lambda: i
+
+    def __repr__(self):
+        return "Unpicklable(%d)" % self.i
+
+    def __eq__(self, other):
+        return isinstance(other, Unpicklable) and other.i == self.i
+
+    def __hash__(self):
+        return hash(("Unpicklable", self.i))
+
+
 class Execution:
     """one run of the real code under one schedule"""
 
@@ -101,10 +119,13 @@ class Execution:
         raising = set(cfg["raising"])
         flaky = {int(i): (k, how) for i, k, how in cfg.get("flaky", [])}
         attempts = collections.Counter()
+        unpick = set(cfg.get("unpicklable", []))
 
         def f(dev_id):
             if dev_id in raising:
                 raise TaskError("boom-%s" % dev_id)
+            if dev_id in unpick:
+                return {"value": payload(dev_id), "conn": Unpicklable(dev_id)}
             if dev_id in flaky:
                 # a task whose connection drops: the first k attempts (k = -1: every attempt) end in a network error,
                 # raised directly or as the context of another exception; annet retries such a task net_retry times
@@ -199,18 +220,33 @@ class Execution:
             raise s.error
         if cfg.get("api") == "run":
             if self.end != ("normal",):
-                if cfg["tolerate"] or not raising:
+                if cfg["tolerate"] or not (raising or cfg.get("unpicklable")):
                     out.append(({"kind": "run-raised", "exc": self.end[1]}, repr(self.end)))
                 return out
             succ, fail = self.run_result
-            exp_s = {i: payload(i) for i in ids if i not in raising}
+            unpick = set(cfg.get("unpicklable", []))
+            # an id whose result cannot be pickled has ONE outcome: the value itself (in-process path) or a failure
+            for i in unpick:
+                if (i in succ) == (i in fail):
+                    out.append(({"kind": "run-result", "what": "unpicklable result has not exactly one outcome"},
+                                "id %r: success=%r fail=%r" % (i, succ, sorted(fail))))
+            succ = {i: v for i, v in succ.items() if i not in unpick}
+            fail = {i: v for i, v in fail.items() if i not in unpick}
+            exp_s = {i: payload(i) for i in ids if i not in raising and i not in unpick}
             if succ != exp_s or set(fail) != raising:
                 out.append(({"kind": "run-result"},
                             "success=%r fail=%r expected success=%r fail ids=%r" % (succ, sorted(fail), exp_s, sorted(raising))))
             return out
         got_ids = [d[0] for d in self.delivered]
+        unpick = set(cfg.get("unpicklable", []))
         for (i, res, exc) in self.delivered:
-            if i in raising:
+            if i in unpick:
+                # the value itself (in-process path) or a failure, never a half of each
+                ok_value = exc is None and isinstance(res, dict) and res.get("value") == payload(i)
+                ok_failure = exc is not None and res is None
+                if not (ok_value or ok_failure):
+                    out.append(({"kind": "payload", "what": "unpicklable-result-neither-value-nor-failure"}, repr((i, res, exc))))
+            elif i in raising:
                 if i in cb_fail and i not in set(cfg["raising"]):
                     if "cb-%s" % i not in str(exc):
                         out.append(({"kind": "payload", "what": "callback-failure-not-reported"}, repr((i, res, exc))))
@@ -230,8 +266,10 @@ class Execution:
                 out.append(({"kind": "terminate-without-cause"}, repr(self.vmp.terminated)))
         else:
             # irun raised
-            if cfg["tolerate"] or not raising:
+            if cfg["tolerate"] or not (raising or unpick):
                 out.append(({"kind": "irun-raised", "exc": self.end[1]}, repr(self.end)))
+            elif unpick:
+                pass        # the failure made of an unpicklable result may end a tolerate_fails=False run; its text is the pool's own
             else:
                 msg = self.end[2]
                 if self.end[1] != "PickleSafeException" or msg not in {("net-%s" if i in net_fail else "boom-%s") % i for i in raising}:
@@ -383,6 +421,11 @@ def cfgs(tier):
         add(full, 2, pool, 25, flaky=[[0, -1, "wrapped"], [1, 3, "wrapped"]])
         add(full, 2, pool, 25, flaky=[[0, 4, "direct"]], tolerate=0)
     add(full, 2, 2, 1, flaky=[[1, -1, "direct"]], api="run")
+    # a task whose result cannot be pickled (the pool turns it into a failure before it is queued; in-process it is the value)
+    for pool in (1, 2):
+        add(full, 2, pool, 25, unpicklable=[1])
+    add(full, 2, 2, 1, unpicklable=[0], tolerate=0)
+    add(full, 2, 2, 25, unpicklable=[0], api="run")
     # callbacks that are generators, and callbacks that fail for one id (in the parent and in the worker thread)
     for pool in (1, 2):
         add(full, 2, pool, 25, callback="gen")
